@@ -13,7 +13,7 @@ func init() {
 		ID:    "C14",
 		Level: "other",
 		Run:   c14,
-		Explanation: "TXIDs and checksums are touched only through comparisons, so the per-database sync decision of streamBackupDB is a finite decision table; it is extracted by enumerating every feasible path (phis, local cells and the closure-written position resolved) and compared row by row: no local database / service ahead / same TXID with another checksum / missing LTX file / service reports a mismatch -> PosMismatchError (which streamBackup turns into restoreDBFromBackup, never into another upload); local empty or in sync -> nothing; service empty -> snapshot; otherwise a compaction of the files remote+1, remote+2, ... (at most MaxBackupLTXFileN, contiguous, in order) whose own header/trailer give the position recorded for the next round. High-water mark: SetHWM is called only with the value BackupClient.WriteTx returned and only when it returned no error (shared family with C09). Restore: lock, recover, write, apply, position re-read. Position map: entries are replaced only by the position the sync returned, a zero position deletes the entry, the periodic full sync discards the map. Service side (FileBackupClient): rename dominated by the contiguity test and by verification of the written file, temp-file protocol; lfsc client: non-2xx is an error, EPOSMISMATCH maps to PosMismatchError, the mark returned is parsed from the Litefs-Hwm header.",
+		Explanation: "TXIDs and checksums are touched only through comparisons, so the per-database sync decision of streamBackupDB is a finite decision table; it is extracted by enumerating every feasible path (phis, local cells and the closure-written position resolved) and compared row by row: no local database / service ahead / same TXID with another checksum / missing LTX file / service reports a mismatch -> PosMismatchError (which streamBackup turns into restoreDBFromBackup, never into another upload); local empty or in sync -> nothing; service empty -> snapshot; otherwise a compaction of the files remote+1, remote+2, ... (at most MaxBackupLTXFileN, contiguous, in order) whose own header/trailer give the position recorded for the next round. High-water mark: SetHWM is called only with the value BackupClient.WriteTx returned and only when it returned no error (shared family with C09). Restore: lock, recover, write, apply, position re-read. Position map: entries are replaced only by the position the sync returned, a zero position deletes the entry, the periodic full sync discards the map. Service side (FileBackupClient): rename dominated by the contiguity test and by verification of the written file, temp-file protocol; lfsc client: non-2xx is an error, EPOSMISMATCH maps to PosMismatchError, the mark returned is parsed from the Litefs-Hwm header. A snapshot upload reports the uploaded snapshot's own position (handed over from the snapshot goroutine), and a restore creates the local database only after the snapshot was fetched.",
 		NotDecided: "byte-identity of a restored database, behaviour of the remote LiteFS Cloud service, eventual convergence of repeated syncs (liveness).",
 		Assumptions: []string{"go/ssa faithfully represents the source", "ltx.Compactor emits header/trailer of the range it compacted (vendored dependency)"},
 	})
